@@ -123,7 +123,12 @@ class NumpyBackendProvider(BackendProvider):
                 raise TypeError("not a non-empty vector")
             return a
 
-        ns = {'np': np, '_kg_pow': _kg_pow, '_kg_vec': _kg_vec}
+        def _kg_div(a, b):
+            # same rule as the interpreter's a%b: an atom divided by a zero atom is :undefined
+            from ..dyads import eval_dyad_divide
+            return eval_dyad_divide(a, b, self)
+
+        ns = {'np': np, '_kg_pow': _kg_pow, '_kg_vec': _kg_vec, '_kg_div': _kg_div}
         try:
             exec(fn_source, ns)
         except Exception:
@@ -148,7 +153,9 @@ class NumpyBackendProvider(BackendProvider):
                 return None
             if op == '^':
                 return f'_kg_pow({l},{r})'
-            py_op = {'+': '+', '-': '-', '*': '*', '%': '/'}.get(op)
+            if op == '%':
+                return f'_kg_div({l},{r})'
+            py_op = {'+': '+', '-': '-', '*': '*'}.get(op)
             if py_op is None:
                 return None
             return f'({l}{py_op}{r})'
